@@ -119,6 +119,7 @@ func runCheck(args []string) int {
 	tier := fs.String("tier", "quick", "quick|thorough")
 	replay := fs.String("replay", "", "replay file to re-check")
 	noEvidence := fs.Bool("no-evidence", false, "do not write evidence (used by the mutant runner)")
+	replaysRoot := fs.String("replays", "", "directory for replay files (default <verif>/replays)")
 	fs.Parse(args)
 	if t := os.Getenv("VERIF_TIER"); t == "quick" || t == "thorough" {
 		if !flagSet(fs, "tier") {
@@ -161,17 +162,22 @@ func runCheck(args []string) int {
 	known := loadKnownFindings(filepath.Join(*verif, "KNOWN_FINDINGS.txt"))
 
 	type unitRes struct {
-		u   unit
-		res *FuncResult
+		u      unit
+		res    *FuncResult
+		filter string // per-unit filter ("unit|prefixes" in the property spec)
 	}
 	var results []unitRes
 	for _, k := range spec.Units {
+		uf := ""
+		if i := strings.Index(k, "|"); i >= 0 {
+			k, uf = k[:i], k[i+1:]
+		}
 		for _, u := range eng.unitsFor(k) {
-			results = append(results, unitRes{u, eng.verifyUnit(u)})
+			results = append(results, unitRes{u, eng.verifyUnit(u), uf})
 		}
 	}
 	for _, ln := range spec.Lemmas {
-		results = append(results, unitRes{unit{key: "lemma:" + ln}, eng.verifyLemma(ln)})
+		results = append(results, unitRes{unit{key: "lemma:" + ln}, eng.verifyLemma(ln), ""})
 	}
 	// discharge everything in one pool
 	var wg sync.WaitGroup
@@ -203,10 +209,14 @@ func runCheck(args []string) int {
 		}
 		// the filter selects the clauses of THIN units that belong to this property; a full unit listed
 		// under a filtered property contributes all its obligations
-		if spec.Filter != "" && r.res.Script != nil && (thin || spec.Filter == "locks") {
+		filter := spec.Filter
+		if r.filter != "" {
+			filter, thin = r.filter, true
+		}
+		if filter != "" && r.res.Script != nil && (thin || filter == "locks") {
 			var keep []*Obligation
 			for _, o := range r.res.Script.obls {
-				for _, f := range strings.Split(spec.Filter, ",") {
+				for _, f := range strings.Split(filter, ",") {
 					if (f == "locks" && o.Kind == "lock") || strings.HasPrefix(o.Label, f) || (o.Cover && o.Label == "pre") ||
 						((o.Kind == "inv-init" || o.Kind == "inv-pres") && strings.Contains(o.Label, ":"+f)) {
 						keep = append(keep, o)
@@ -244,6 +254,9 @@ func runCheck(args []string) int {
 	knownHit := 0
 	bySolver := map[string]int{}
 	replayDir := filepath.Join(*verif, "replays", prop)
+	if *replaysRoot != "" {
+		replayDir = filepath.Join(*replaysRoot, prop)
+	}
 	var out []string
 	report := func(name, unitName, fn, kind, clause, pos, verdict, solver, reason, output, model, script string) {
 		for _, kf := range known {
